@@ -51,7 +51,18 @@ def run(ctx):
                 v = _ev.eval(ast.Name(id=name, ctx=ast.Load()), _scope)
             except AnalysisError:
                 return None
-            return v if isinstance(v, (list, tuple, dict)) else None
+            from ..tableeval import Dyn
+
+            def closed(x):
+                if isinstance(x, Dyn):
+                    return False
+                if isinstance(x, (list, tuple)):
+                    return all(closed(y) for y in x)
+                if isinstance(x, dict):
+                    return all(closed(k_) and closed(v_) for k_, v_ in x.items())
+                return True
+            # a table with a part the evaluator could not compute is NOT known (fail closed, never a guessed shape)
+            return v if isinstance(v, (list, tuple, dict)) and closed(v) else None
         def resolve_const(name, _scope=fv.scope):
             try:
                 v = _ev.eval(ast.Name(id=name, ctx=ast.Load()), _scope)
